@@ -172,7 +172,7 @@ func c05History(steps [][2]string) string {
 }
 
 func TestC05(t *testing.T) {
-	run := rep.Start("C05", "exploration")
+	run := rep.Start("C05", "model_checking")
 	defer run.Finish(t)
 	types := c05Types()
 	var mu sync.Mutex
